@@ -105,6 +105,21 @@ PROPS = {
         "assumptions": ["shares the harness run of C03 (wire.annotate and wire.roundtrip ops)"],
         "partial": ["annotate_roundtrip for all well-typed values is not yet a theorem; proved: the allowances, rejection of the named near-miss kinds, leaf round trips"],
     },
+    "C14": {
+        "profiles": ["debug"],
+        "rule": "programs well-formed by construction (0..6 definitions of kinds data / function / service / alias of an earlier one, recursive through opt, vec, fields, arguments and methods; methods written as function types or as names denoting functions; hostile method names; source order reversed half the time; "
+                "actor absent / service literal / name of a service definition / constructor with 0..2 init args) and, for each, one single-fault mutant with a known verdict: undefined name, duplicate definition, alias cycle of length 1..6 (optionally entered from outside), duplicate id / name vs id collision / duplicate name in a record or variant, "
+                "method denoting a non-function through an alias chain of length 0..5 (alias optionally used as an ordinary type by an earlier method or an earlier definition), oneway with a result, two annotations, non-service actor (directly or as a constructor result), duplicate method, undefined actor; faults are planted at depth 0..2 inside a data definition, the actor's methods or the init args; "
+                "plus not-a-fault programs where a function is reached through its own name; argument-name lists; every request is non-trivial; distinct = distinct request lines",
+        "trusted": [
+            "the .did text handed to /repo is printed by the harness (explicit labels, hex-escaped quoted names), so the parser and its grammar actions are exercised together with check_prog",
+            "error messages of /repo are mapped to eight classes by substring; the model returns the class of the first failing phase",
+            "uniqueness of labels and method names is modelled as `Nodup` (sorting + adjacent comparison is C15's subject)",
+        ],
+        "assumptions": ["imports (check_file, IDLMergedProg) and check_init_args are not modelled; service constructors occur only as the main actor (the grammar admits them nowhere else)",
+                        "the depth guard of as_func/as_service (stack based) is not modelled: alias chains are far below it"],
+        "partial": [],
+    },
     "C15": {
         "profiles": ["debug"],
         "rule": "hash: every ASCII string of length <= 2 (exhaustive), two-byte UTF-8 scalars, random strings <= 64 scalars over the full Unicode range; labels: lists of 0-5 labels mixing names (identifiers, keywords, arbitrary Unicode, "
